@@ -17,6 +17,7 @@ if TYPE_CHECKING:
 
 
 _RE_WHITESPACE_LINE = re.compile(r'^\s+$')
+_RE_NEWLINE_TERMINATED_LINE = re.compile(r'[^\n]*\n|[^\n]+')
 # Consume whitespace and a single word.
 _RE_WHITESPACE_SEPARATED_WORD_LIST = re.compile(r'''
     (?P<space_before>\s*)                # Consume any whitespace before the word
@@ -427,7 +428,9 @@ def _value_line_tokenizer(func):
     def impl(v):
         # type: (str) -> Iterable[Deb822Token]
         first_line = True
-        for line in v.splitlines(keepends=True):
+        # Only "\n" ends a line of a deb822 value (str.splitlines would also cut
+        # at form feeds, U+2028, etc., which are ordinary characters here)
+        for line in _RE_NEWLINE_TERMINATED_LINE.findall(v):
             assert not _RE_WHITESPACE_LINE.match(v)
             if line.startswith("#") and not first_line:
                 # (The first line follows the field separator and is never a comment)
